@@ -27,7 +27,7 @@ func NewFV(eng *Engine, fn *ssa.Function, spec *FuncSpec) *FV {
 	fv := &FV{eng: eng, fn: fn, spec: spec, decls: NewDecls(), usedSpecFns: map[string]bool{},
 		strConsts: map[string]string{}, unmodelled: map[string]bool{}, inlined: map[string]bool{},
 		calleesByContract: map[string]bool{}, assumptions: map[string]bool{}, implUsed: map[string]types.Type{},
-		sliceElems: map[string]string{}}
+		sliceElems: map[string]string{}, hsUses: map[string][]heapUse{}, hsBusy: map[string]bool{}, hsUnfolded: map[*State]map[string]bool{}}
 	fv.short = funcKey(fn)
 	if spec != nil {
 		fv.wrap = spec.ArithWrap
@@ -532,6 +532,7 @@ func (fv *FV) Verify() {
 			st.nonnil[r.S] = true
 		}
 	}
+	st.assume(app(SBool, ">", fv.nextOf(st.heap, st.epoch), mkInt(0)))
 	var errs []string
 	if fv.spec != nil {
 		env := fv.entryEnv(st, &errs)
@@ -568,8 +569,8 @@ func (fv *FV) typeAssume(st *State, c Term, t types.Type) {
 			st.assume(Term{S: fmt.Sprintf("(<= 0 %s)", c.S), Sort: SBool})
 		}
 	case *types.Pointer, *types.Map:
-		al := fv.heapGet(st.heap, st.epoch, "pv_alloc", arraySort(SInt, SBool))
-		st.assume(tSelect(al, c, SBool))
+		st.assume(fv.isAlloc(st.heap, st.epoch, c))
+		fv.assumeTypeInv(st, c, t)
 	case *types.Slice:
 		st.assume(Term{S: fmt.Sprintf("(>= (%s_len %s) 0)", c.Sort, c.S), Sort: SBool})
 	}
